@@ -325,12 +325,59 @@ def internal_cases(rng, k):
         yield "flox.core._factorize_single (pandas.factorize branch)", factorize_single_case
 
 
+def external_cases_graph(rng, k):
+    """models introduced by the graph-layer and engine='flox' mean contracts"""
+    for t in range(k):
+        nd = int(rng.integers(1, 4))
+        shape = [int(x) for x in rng.integers(1, 4, size=nd)]
+        flat = int(rng.integers(0, int(np.prod(shape))))
+
+        def unravel_case(shape=shape, flat=flat):
+            from ..contracts.collapse import m_unravel_index_scalar
+
+            ex, st = _Ex(), State()
+            out = m_unravel_index_scalar(None)(ex, st, [z3.IntVal(flat), tuple(z3.IntVal(s) for s in shape)], {}, _node())
+            real = np.unravel_index(flat, tuple(shape))
+            if len(out) != len(real):
+                return "FAILS", {"flat": flat, "shape": shape}
+            for o, r in zip(out, real):
+                st.assume(o == int(r))
+            return decide(ex, st), {"flat": flat, "shape": shape}
+
+        yield "numpy.unravel_index (one flat index)", unravel_case
+
+        n = int(rng.integers(1, 5))
+        sums = [int(x) for x in rng.integers(-9, 10, size=n)]
+        counts = [int(x) for x in rng.integers(1, 5, size=n)]
+
+        def divide_case(sums=sums, counts=counts, as_int=bool(t % 2)):
+            from ..contracts.floxmean import QUOT, GArr
+
+            ex, st = _Ex(), State()
+            R_ = z3.RealSort()
+            for sv, cv in zip(sums, counts):  # the intended interpretation of the abstract exact quotient
+                st.assume(QUOT(z3.RealVal(sv), z3.IntVal(cv)) == z3.RealVal(sv) / z3.RealVal(cv))
+            a = GArr("i" if as_int else "f", cseq(sums, R_, st), "dtype")
+            c = cseq(counts, I, st)
+            q = a.quotient(ex, c, a.kind_)
+            out = np.array(sums, dtype=np.int64 if as_int else np.float64)
+            np.divide(out, np.array(counts), out=out, casting="unsafe")
+            st.assume(q.vals.length == len(out))
+            for j, v in enumerate(out.tolist()):
+                st.assume(q.vals.at(j) == (z3.IntVal(int(v)) if as_int else z3.RealVal(repr(float(v)))))
+            return decide(ex, st), {"sums": sums, "counts": counts, "integer_out": as_int}
+
+        # floating outputs are compared only where the exact quotient is a binary fraction (float64 rounding is not modelled)
+        if t % 2 or all((sv / cv).as_integer_ratio()[1] <= 16 for sv, cv in zip(sums, counts)):
+            yield "numpy.divide(a, b, out=a, casting='unsafe')", divide_case
+
+
 def run(seed=0, k_external=12, k_internal=30, only=None):
     """returns dict(external={model: tally}, internal={...}); `only`: substrings selecting models by name"""
     out = {}
-    for cls, gen_, k in (("external", external_cases, k_external), ("internal", internal_cases, k_internal)):
+    for cls, gen_, k in (("external", external_cases, k_external), ("external", external_cases_graph, k_external), ("internal", internal_cases, k_internal)):
         rng = np.random.default_rng(1000 + seed)
-        tallies = {}
+        tallies = out.get(cls, {})
         for name, thunk in gen_(rng, k):
             if only is not None and not any(o in name for o in only):
                 continue
